@@ -392,6 +392,35 @@ def shard(ctx):
                 if st.get("s" + tag) != st.get("t" + tag):
                     ctx.violation("keyvar:matrix:some", "`some xs[*].%%k` gives %s, `some xs[*].k` gives %s (clause #%s)" % (st.get("s" + tag), st.get("t" + tag), tag),
                                   {"kind": "pair", "a": "", "b": text, "data": kdocs, "map": {"s" + tag: "t" + tag}})
+    # ---- a `let` inside a `when` block shadows the outer variable of that name for the BODY only: the guard still reads the outer one
+    if ctx.mine(5):
+        wdoc = json.dumps({"Resources": {"a": {"Type": "T1"}, "b": {"Type": "T2"}}, "n": 5, "m": 6, "l": [{"k": 5, "v": 6}, {"k": 7, "v": 6}]})
+        pairs = [
+            ("when Resources.a.Type == 'T1' {\n        Resources.b.Type == 'T2'\n    }",
+             "let sel = Resources.a\n    when %sel.Type == 'T1' {\n        let sel = Resources.b\n        %sel.Type == 'T2'\n    }"),
+            ("when Resources.a.Type == 'T1' {\n        Resources.b.Type == 'T2'\n    }",
+             "let sel = Resources.a\n    when %sel.Type == 'T1' {\n        let sel = Resources.b\n        Resources.b.Type == 'T2'\n    }"),
+            ("when Resources.a.Type == 'T2' {\n        Resources.b.Type == 'T2'\n    }",
+             "let sel = Resources.a\n    when %sel.Type == 'T2' {\n        let sel = Resources.b\n        %sel.Type == 'T2'\n    }"),
+            ("when n == 5 {\n        m == 6\n    }", "when n == %lim {\n        let lim = 6\n        m == %lim\n    }"),
+            ("when n == 5 {\n        m == 7\n    }", "when n == %lim {\n        let lim = 7\n        m == %lim\n    }"),
+            ("l[*] {\n        when k == 5 {\n            v == 6\n        }\n    }", "l[*] {\n        let want = 5\n        when k == %want {\n            let want = 6\n            v == %want\n        }\n    }"),
+            ("when n == 5 {\n        when m == 6 {\n            n == 5\n        }\n    }", "let x = 5\n    when n == %x {\n        let x = 6\n        when m == %x {\n            let x = 5\n            n == %x\n        }\n    }"),
+        ]
+        A = "".join("rule w%d {\n    %s\n}\n" % (i, a) for i, (a, _b) in enumerate(pairs))
+        B = "let lim = 5\n" + "".join("rule w%d {\n    %s\n}\n" % (i, b) for i, (_a, b) in enumerate(pairs))
+        sa, _ra = status_map(ctx.w, A, wdoc)
+        sb, _rb = status_map(ctx.w, B, wdoc)
+        ctx.res.cases += 1
+        ctx.res.counts["when_shadow_matrix"] += len(pairs)
+        if not isinstance(sa, dict) or not isinstance(sb, dict):
+            ctx.inconclusive("when-shadow-matrix-does-not-evaluate")
+        else:
+            bad = sorted(k for k in sa if sa[k] != sb.get(k))
+            if bad:
+                ctx.violation("when-shadow:%s" % bad[0], "a `let` inside a `when` block changes what its guard sees: in place %s, with variables %s" % (sa, sb), {"kind": "pair", "a": A, "b": B, "data": wdoc})
+            else:
+                ctx.res.distinct.add(("when-shadow", json.dumps(sa, sort_keys=True)))
     # ---- the right-hand side of a `keys` filter taken from a literal-bound variable == the literal written in place
     if ctx.mine(4):
         mdoc = json.dumps({"m": {"web": 1, "db": 2, "log": 3, "lot": 3}, "me": {}})
